@@ -776,7 +776,7 @@ Definition exec_builtin (p : prog) (e : env) (m : machine) (bytecode : Z) : step
   else if bytecode =? CODE_NEGATE then un_op m (fun a => wrap w (- a))
   else if bytecode =? CODE_ADD1 then un_op m (fun a => wrap w (a + 1))
   else if bytecode =? CODE_SUB1 then un_op m (fun a => wrap w (a - 1))
-  else if bytecode =? CODE_ABS then un_op m (fun a => wrap w (Z.abs a))
+  else if bytecode =? CODE_ABS then un_op m (fun a => wrap 32 (Z.abs (wrap 32 a)))   (* `abs` resolves to int abs(int) *)
   else if bytecode =? CODE_MIN then bin_op m Z.min
   else if bytecode =? CODE_MAX then bin_op m Z.max
   else if bytecode =? CODE_EQ then bin_op m (fun a b => bool_cell (a =? b))
@@ -1695,7 +1695,8 @@ Definition end_of_step_plain (p : prog) (t : Z) (m2 : machine) : bool :=
                | (dd, _, _) :: _ => negb (abs_depth dd =? depth m2 - 1)      (* the segment is not a do-loop body *)
                | [] => true
                end
-  | _ => true
+  | Ok false => true
+  | _ => negb (depth m2 =? t)
   end.
 
 (* follows the control flow of internal_run in single-step mode up to the instruction the step executes *)
